@@ -605,6 +605,7 @@ func (t *tXn) truncate(methods []string) {
 			nr[i].wildcardChildIndex = -1
 		}
 		t.root = nr
+		t.size = 0
 		return
 	}
 
@@ -616,6 +617,10 @@ func (t *tXn) truncate(methods []string) {
 		idx := nr.methodIndex(method)
 		if idx < 0 {
 			continue
+		}
+		// The routes registered for this method are not part of the tree anymore.
+		for it := newRawIterator(nr[idx]); it.hasNext(); {
+			t.size--
 		}
 		if !isRemovable(method) {
 			nr[idx] = new(node)
